@@ -136,6 +136,16 @@ fn execute_net(prop: &str, p: &net::NetProgram) -> RunInfo {
         "C09" => net_oracles::check_c09(p, &res, &mut info),
         "C05" | "C06" => asy::check_tasks(p, &res, prop, &mut info),
         "C16" => net_oracles::check_c16(p, &res, &mut info),
+        "C13" if p.blocks.first() == Some(&7) => {
+            info.probe("joined_block_handler_fails_after_asking_for_a_restart");
+            if let Some(e) = &res.escaped_panic {
+                info.violate(Violation::new("C13", "simulator-aborted", format!("a panic escaped the simulator: {e}")));
+            } else if res.started && !res.errors.iter().any(|(k, path)| k == "join-panic" && path == "blk0") {
+                info.violate(Violation::new("C13", "task-panic-not-reported", format!(
+                    "the handler task of the joined block blk0 panicked (after it had asked for a restart of its node) but run() does not report it (errors: {:?}, ok: {:?})", res.errors, res.ok)));
+            }
+            info.nontrivial = true;
+        }
         "C13" => {
             // the twin comparison presupposes that a seeded run is reproducible (C04's statement): check it on this program
             let again = net::run_net(p, &opts);
